@@ -153,8 +153,8 @@ func (vc *VC) havocFor(st *State, ms modSet, ls *LoopSpec, entry *State) *State 
 // frameFact: forall r. r < alloc && r not in targets => new[r] = old[r]
 func frameFact(newH, oldH string, targets []string, alloc string) string {
 	conds := []string{"(< r!f " + alloc + ")"}
-	if strings.HasPrefix(newH, "G$") {
-		// ghost heaps are keyed by arbitrary integers (e.g. interface payloads): no allocation guard
+	if ifaceKeyedGhost(newH) {
+		// ghost heaps keyed by interface payloads (arbitrary integers): no allocation guard
 		conds = nil
 	}
 	for _, t := range targets {
@@ -218,7 +218,7 @@ func (vc *VC) checkFrame(st, from *State, writes []*Clause, kind, where string, 
 			continue
 		}
 		conds := []string{"(< r!f " + from.alloc + ")", "(<= 0 r!f)"}
-		if strings.HasPrefix(h, "G$") {
+		if ifaceKeyedGhost(h) {
 			conds = nil
 		}
 		for _, t := range targets[h] {
@@ -494,6 +494,10 @@ func (vc *VC) execRange(st *State, x *ast.RangeStmt, label string) []*State {
 // channels in sequential code: buffered channels created locally are filled and closed
 
 func (vc *VC) execSend(st *State, x *ast.SendStmt) {
+	if vc.isTokenChan(x.Chan) {
+		vc.tokenSend(st, x.Chan, vc.evalExpr(st, x.Value), x)
+		return
+	}
 	ch := vc.evalExpr(st, x.Chan)
 	ci := vc.chanInfo(ch.T)
 	v := vc.coerce(vc.evalExpr(st, x.Value), ci.E)
@@ -513,4 +517,17 @@ func (vc *VC) chanAppend(st *State, ch Term, ci chanHeaps, v Term, text, where s
 
 func (vc *VC) execSelect(st *State, x *ast.SelectStmt) []*State {
 	return vc.execSelectModel(st, x)
+}
+
+var ifaceKeyed = map[string]bool{}
+
+func ifaceKeyedGhost(h string) bool {
+	if !strings.HasPrefix(h, "G$") {
+		return false
+	}
+	name := strings.TrimPrefix(h, "G$")
+	if i := strings.IndexAny(name, "!@"); i >= 0 {
+		name = name[:i]
+	}
+	return ifaceKeyed[name]
 }
